@@ -162,7 +162,14 @@ def controlBits : Family := { name := "control_bits", gen := controlBitsGen, eva
 /-! ### control_ver: the breakpoint grid of inferPGVersion × states × wal levels -/
 
 def verCvs : List Nat := [0, 959, 960, 961, 1001, 1002, 1003, 1099, 1100, 1101, 1200, 1201, 1202, 1299, 1300, 1301, 1700, 2 ^ 32 - 1]
-def verCats : List Nat := [0, 201707211, 201809051, 201909211, 201909212, 202007201, 202107180, 202107181, 202209061, 202307070, 202307071, 2 ^ 32 - 1]
+def verCats : List Nat := [0, 201707211, 201809051, 201909211, 201909212, 202007200, 202007201, 202107180, 202107181, 202209060, 202209061, 202307070, 202307071, 2 ^ 32 - 1]
+
+/-- what a correct tool reports for the version / state / WAL-level names: defined where the pair of version numbers is
+one a released PostgreSQL 12–16 writes (`Spec.pgMajorOf`) and the image is well-formed -/
+def specVer (c : Spec.ControlData) : String :=
+  match Spec.pgMajorOf c.pgControlVersion c.catalogVersionNo with
+  | some major => if decide c.WF then s!"v={major};ss={Spec.stateName c.state};wl={Spec.walLevelNames.getD c.walLevel ""}" else "-"
+  | none => "-"
 
 def showVer : Option Model.ControlFile → String
   | none => "err"
@@ -174,14 +181,21 @@ def controlVerGen (seed idx _size : Nat) : Case :=
     if idx < grid then (verCvs.getD (idx / verCats.length) 0, verCats.getD (idx % verCats.length) 0, ((idx % 9 : Nat) : Int) - 1, idx % 4)
     else
       ((do
-        let cv ← (do if ← Gen.prob 1 2 then Gen.range 900 1400 else Gen.genU 32)
-        let cat ← (do if ← Gen.prob 1 2 then Gen.range 201600000 202400000 else Gen.genU 32)
         let st ← Gen.genState
-        let wl ← Gen.oneOf [0, 1, 2, 3, 2 ^ 31, 2 ^ 32 - 1]
-        pure (cv, cat, st, wl) : Gen _)).run' (Prng.ofSeed seed idx)
+        if ← Gen.prob 1 3 then
+          -- a pair a released PostgreSQL 12–16 writes, any state, a legal WAL level
+          let r ← Gen.oneOf Spec.pgReleases
+          pure (r.2.1, r.2.2, st, ← Gen.below 3)
+        else
+          let cv ← (do if ← Gen.prob 1 2 then Gen.range 900 1400 else Gen.genU 32)
+          let cat ← (do if ← Gen.prob 1 2 then Gen.range 201600000 202400000 else Gen.genU 32)
+          let wl ← Gen.oneOf [0, 1, 2, 3, 2 ^ 31, 2 ^ 32 - 1]
+          pure (cv, cat, st, wl) : Gen _)).run' (Prng.ofSeed seed idx)
   let c := { Gen.typicalControl with pgControlVersion := cv, catalogVersionNo := cat, state := st, walLevel := wl }
   let file := Spec.encControl c 0 0
-  { tags := ["nt"], model := showM showVer (Model.parseControlFile file), spec := "-", args := [hexRle file] }
+  let major := Spec.pgMajorOf cv cat
+  { tags := ["nt", match major with | some m => s!"release={m}" | none => "release=none"],
+    model := showM showVer (Model.parseControlFile file), spec := specVer c, args := [hexRle file] }
 
 def controlVerEval (args : List String) : String :=
   match args with
